@@ -23,10 +23,11 @@ import (
 func init() { register("C07", runC07, replayC07) }
 
 type c07ID struct {
-	path string
-	dest *destination.Destination // one of the two is set
-	ri   *router_identity.RouterIdentity
-	buf  []byte // the private buffer the value was parsed from (nil for constructed values)
+	consumed []byte // the bytes the path consumed (nil: constructed, or exactly the identity's wire bytes)
+	path     string
+	dest     *destination.Destination // one of the two is set
+	ri       *router_identity.RouterIdentity
+	buf      []byte // the private buffer the value was parsed from (nil for constructed values)
 }
 
 // c07Paths obtains the identity encoded by w through every API path that accepts it.
@@ -39,25 +40,25 @@ func c07Paths(w []byte, k refmodel.KeysAndCert, withCtor bool) []c07ID {
 		tail := tails[tn]
 		mk := func() []byte { return append(append([]byte(nil), w...), tail...) }
 		b := mk()
-		if d, rem, err := destination.ReadDestination(b); err == nil && bytes.Equal(rem, tail) {
+		if d, rem, err := destination.ReadDestination(b); err == nil && len(rem) <= len(b) {
 			d := d
-			out = append(out, c07ID{path: "destination.ReadDestination" + tn, dest: &d, buf: b})
+			out = append(out, c07ID{path: "destination.ReadDestination" + tn, dest: &d, buf: b, consumed: append([]byte(nil), b[:len(b)-len(rem)]...)})
 		}
 		b = mk()
-		if d, rem, err := destination.NewDestinationFromBytes(b); err == nil && bytes.Equal(rem, tail) {
-			out = append(out, c07ID{path: "destination.NewDestinationFromBytes" + tn, dest: d, buf: b})
+		if d, rem, err := destination.NewDestinationFromBytes(b); err == nil && len(rem) <= len(b) {
+			out = append(out, c07ID{path: "destination.NewDestinationFromBytes" + tn, dest: d, buf: b, consumed: append([]byte(nil), b[:len(b)-len(rem)]...)})
 		}
 		b = mk()
-		if ri, rem, err := router_identity.ReadRouterIdentity(b); err == nil && bytes.Equal(rem, tail) {
-			out = append(out, c07ID{path: "router_identity.ReadRouterIdentity" + tn, ri: ri, buf: b})
+		if ri, rem, err := router_identity.ReadRouterIdentity(b); err == nil && len(rem) <= len(b) {
+			out = append(out, c07ID{path: "router_identity.ReadRouterIdentity" + tn, ri: ri, buf: b, consumed: append([]byte(nil), b[:len(b)-len(rem)]...)})
 			if tn == "" {
 				d := ri.AsDestination()
 				out = append(out, c07ID{path: "RouterIdentity.AsDestination", dest: &d})
 			}
 		}
 		b = mk()
-		if ri, rem, err := router_identity.NewRouterIdentityFromBytes(b); err == nil && bytes.Equal(rem, tail) {
-			out = append(out, c07ID{path: "router_identity.NewRouterIdentityFromBytes" + tn, ri: ri, buf: b})
+		if ri, rem, err := router_identity.NewRouterIdentityFromBytes(b); err == nil && len(rem) <= len(b) {
+			out = append(out, c07ID{path: "router_identity.NewRouterIdentityFromBytes" + tn, ri: ri, buf: b, consumed: append([]byte(nil), b[:len(b)-len(rem)]...)})
 		}
 	}
 	// wrapping constructors fed from every KeysAndCert reader (generic and the two type-specific twins)
@@ -112,6 +113,14 @@ func c07Base(r *core.Run, w []byte, k refmodel.KeysAndCert, desc string, withCto
 	for _, id := range ids {
 		r.Evaluations.Add(1)
 		b, err := id.bytes()
+		if id.consumed != nil && !bytes.Equal(id.consumed, w) {
+			// the path consumed something else than the identity's encoding (C03 decides framing); what it yields is
+			// judged against the bytes it DID consume: an identity is its wire bytes, whichever they were
+			if err != nil || !bytes.Equal(b, id.consumed) {
+				r.Violate("C07|serialisation|"+pathClass(id.path)+"|differs-from-the-bytes-it-consumed", fmt.Sprintf("%s consumed %d bytes of a %d-byte identity encoding and yields an identity that serialises to neither (%d bytes, err %v): its hash and addresses are not those of any wire bytes (%s)", id.path, len(id.consumed), len(w), len(b), err, desc), cs)
+			}
+			continue
+		}
 		if err != nil || !bytes.Equal(b, w) {
 			r.Violate("C07|serialisation|"+id.path, fmt.Sprintf("%s: identity bytes differ from the wire bytes (err %v) (%s)", id.path, err, desc), cs)
 			continue
